@@ -156,6 +156,10 @@ func (r *c03Rules) ProposeRule(view hotstuff.View, si hotstuff.SyncInfo, cmd *cl
 type c03QCInfo struct {
 	ok        bool // ground truth: a quorum of distinct replicas signed exactly this block, and the block can be obtained
 	nsig      int  // distinct members that signed exactly the named block
+	shaped    bool // built by shapeQC: label and presence of a signature are part of the ground truth
+	absent    bool // no signature at all (nil or a nil pointer)
+	label     hotstuff.View
+	genesis   bool // names the genesis block
 	haveBlock bool
 	blockView hotstuff.View
 	kind      string
@@ -582,6 +586,77 @@ func (w *c03World) makeQC(target *hotstuff.Block, kind string) hotstuff.QuorumCe
 	return qc
 }
 
+// shapeQC builds "genesis-like" and otherwise malformed certificates for any block: the signature
+// is absent (nil), a nil pointer, an empty multi-signature, junk bytes attributed to a quorum of
+// members, or ("") a genuine quorum; the stated view is the block's own, 0, or another one.
+func (w *c03World) shapeQC(target *hotstuff.Block, shape, label string) hotstuff.QuorumCert {
+	gen := hotstuff.GetGenesis()
+	q := w.quorumNow()
+	info := c03QCInfo{shaped: true, haveBlock: w.available(target) || target.Hash() == gen.Hash(), blockView: target.View(),
+		genesis: target.Hash() == gen.Hash(), label: target.View(), kind: "shape:" + shape + "/label:" + label}
+	switch label {
+	case "zero":
+		info.label = 0
+	case "other":
+		info.label = target.View() + 1
+	}
+	if shape == "typednil" && !info.genesis {
+		// On a non-genesis hash a nil pointer makes Authority.VerifyQuorumCert panic (its
+		// `qcSignature == nil` test does not see a typed nil): a crash, which is C10's subject, not a
+		// signature. Such certificates are built with a plain nil instead.
+		shape = "nil"
+		info.kind = "shape:nil(for typednil)/label:" + label
+	}
+	var sig hotstuff.QuorumSignature
+	switch shape {
+	case "nil":
+		info.absent = true
+	case "typednil":
+		sig = (*crypto.BLS12AggregateSignature)(nil)
+		info.absent = true
+	case "empty":
+		if w.cryptoNm == crypto.NameEDDSA {
+			sig = crypto.Multi[*crypto.EDDSASignature]{}
+		} else {
+			sig = crypto.Multi[*crypto.ECDSASignature]{}
+		}
+	case "junk":
+		var ids []hotstuff.ID
+		for _, id := range w.members {
+			if id != w.self && len(ids) < q {
+				ids = append(ids, id)
+			}
+		}
+		if w.cryptoNm == crypto.NameEDDSA {
+			ms := crypto.Multi[*crypto.EDDSASignature]{}
+			for _, id := range ids {
+				w.nonce++
+				j := sha256.Sum256([]byte(fmt.Sprintf("junk-%d", w.nonce)))
+				ms = append(ms, crypto.RestoreEDDSASignature(append(j[:], j[:]...), id))
+			}
+			sig = ms
+		} else {
+			ms := crypto.Multi[*crypto.ECDSASignature]{}
+			for _, id := range ids {
+				w.nonce++
+				j := sha256.Sum256([]byte(fmt.Sprintf("junk-%d", w.nonce)))
+				ms = append(ms, crypto.RestoreECDSASignature(j[:], id))
+			}
+			sig = ms
+		}
+	case "":
+		sig = w.sigs(target.ToBytes(), q)
+		info.nsig = q
+	default:
+		w.t.Fatalf("qc shape %q", shape)
+	}
+	qc := hotstuff.NewQuorumCert(sig, info.label, target.Hash())
+	if !(info.genesis && sig == nil && info.label == 0) { // that one is the genuine genesis certificate
+		w.qcs[string(qc.ToBytes())] = info
+	}
+	return qc
+}
+
 // relabel re-attributes the last signature of a multi-signature to the replica under test.
 func (w *c03World) relabel(sig hotstuff.QuorumSignature) hotstuff.QuorumSignature {
 	switch ms := sig.(type) {
@@ -631,6 +706,13 @@ func (w *c03World) qcInfoAt(qc hotstuff.QuorumCert, q int) (c03QCInfo, bool) {
 	// info.kind plays no role (deterministic schemes make a quorum-1 certificate after the growth
 	// byte-identical to a quorum certificate made before it)
 	info.ok = info.kind == "genesis" || (info.nsig >= q && info.haveBlock)
+	if info.shaped {
+		// the one certificate that needs no signatures is the genesis certificate: genesis hash, view
+		// 0, no signature; everything else needs a quorum of signatures over the named block, which
+		// must be obtainable, and must state that block's view
+		info.ok = (info.genesis && info.absent && info.label == 0) ||
+			(!info.genesis && !info.absent && info.nsig >= q && info.haveBlock && info.label == info.blockView)
+	}
 	return info, true
 }
 
@@ -667,6 +749,8 @@ type c03Stim struct {
 	Proposer string `json:"proposer,omitempty"`       // "" (= sender) | other
 	K        int    `json:"signers,omitempty"`        // tc: number of signers (3 = quorum)
 	FailSend bool   `json:"fail_vote_send,omitempty"` // core.Sender.Vote fails while this stimulus is handled
+	Shape    string `json:"qc_shape,omitempty"`       // signature of the QC: nil | typednil | empty | junk ("" with Label: genuine quorum)
+	Label    string `json:"qc_label,omitempty"`       // view stated by the QC: "" (the block's) | zero | other
 	FailComm bool   `json:"fail_comm,omitempty"`      // Aggregate / Disseminate fail before sending anything
 }
 
@@ -678,6 +762,11 @@ func (s c03Stim) String() string {
 	if s.FailComm {
 		s.FailComm = false
 		return s.String() + "!commfails"
+	}
+	if s.Shape != "" || s.Label != "" {
+		x := fmt.Sprintf("!qc[%s,%s]", s.Shape, s.Label)
+		s.Shape, s.Label = "", ""
+		return s.String() + x
 	}
 	switch s.Kind {
 	case "propose":
@@ -736,6 +825,24 @@ func (w *c03World) apply(s c03Stim) any {
 		w.joiner = nil
 		return nil
 	case "qc":
+		if s.Shape != "" || s.Label != "" {
+			// a new-view message whose sync info carries a malformed certificate for the tip / genesis
+			tb := w.tip()
+			if s.QCTarget == "genesis" {
+				tb = hotstuff.GetGenesis()
+			}
+			qc := w.shapeQC(tb, s.Shape, s.Label)
+			info, _ := w.qcInfo(qc)
+			si := c03SI{ok: info.ok, view: qc.View(), desc: fmt.Sprintf("QC(shape %s, label %s, view %d)", s.Shape, s.Label, qc.View())}
+			if w.agg {
+				si = c03SI{ok: true, view: 0, desc: si.desc + " ignored by the aggregate rule"}
+			}
+			if !si.ok {
+				si.view = 0
+			}
+			w.pending = append(w.pending, si)
+			return w.deliver(hotstuff.NewViewMsg{ID: w.otherID, SyncInfo: hotstuff.NewSyncInfoWith(qc), FromNetwork: true})
+		}
 		// a new-view message carrying a certificate for a (new) block of view cur+off
 		view := c03ViewAt(cur, s.ViewOff)
 		t := w.tip()
@@ -800,11 +907,19 @@ func (w *c03World) craft(s c03Stim, cur hotstuff.View) hotstuff.ProposeMsg {
 			target = w.newBlock(tip.Hash(), w.makeQC(tip, "genuine"), nv, w.leaderOf(nv))
 			w.publish(target)
 		}
+	case "certified-tip":
+		target = tip
+		w.makeQC(tip, "genuine") // somebody holds a real certificate for it
+	case "unknownblk":
+		uv := tip.View() + 1
+		target = w.newBlock(tip.Hash(), w.makeQC(tip, "genuine"), uv, w.leaderOf(uv)) // never handed out
 	default:
 		target = tip
 	}
 	var qc hotstuff.QuorumCert
-	if s.QCKind == "unknown" {
+	if s.Shape != "" || s.Label != "" {
+		qc = w.shapeQC(target, s.Shape, s.Label)
+	} else if s.QCKind == "unknown" {
 		// a genuinely certified block that nobody will hand out
 		uv := target.View() + 1
 		for {
@@ -1279,6 +1394,7 @@ func TestVerifC03(t *testing.T) {
 	logging.SetLogLevel("error")
 	v := verifNew("C03")
 	t0 := time.Now()
+	c03SelfCheck(t)
 
 	// 1. exhaustive small scope: every crafted proposal in every prepared state, all rulesets
 	ex := v.Stream("exhaustive", "mismatches", 400)
@@ -1354,6 +1470,24 @@ func TestVerifC03(t *testing.T) {
 		}
 		c03RuleAggs = keep
 	}
+	// 3b. genesis-like and otherwise malformed certificates for any block, as the proposal's QC and
+	// inside a new-view message: signature absent / nil pointer / empty / junk / genuine, stated view
+	// the block's / 0 / another, for a known uncertified block, a certified one, an unknown one, genesis
+	sh := v.Stream("shapes", "mismatches", 150)
+	for _, ra := range c03RuleAggs {
+		for _, self := range []hotstuff.ID{1, 3} {
+			conf := c03Std(ra.rule, self)
+			conf.Agg = ra.agg
+			for i, seq := range c03ShapeSeqs(ra.agg) {
+				if self == 3 && !v.Thorough() && i%3 != 0 {
+					continue
+				}
+				c03RunCfg(t, v, sh, "shapes", conf, seq)
+			}
+		}
+	}
+	fmt.Fprintf(os.Stderr, "C03: shapes stream done after %.1fs\n", time.Since(t0).Seconds())
+
 	// 2. seeded random schedules
 	rnd := v.Stream("random", "mismatches", 200)
 	nRandom := v.Pick(450, 9000)
@@ -1429,6 +1563,13 @@ func c03RandomStim(v *verifOut, agg bool) c03Stim {
 	}
 	if s.Kind == "propose" && s.Sender == "leader" && v.rng.Intn(8) == 0 {
 		s.Sender = "stale-leader"
+	}
+	if (s.Kind == "propose" || s.Kind == "qc") && v.rng.Intn(7) == 0 {
+		s.Shape = []string{"nil", "nil", "typednil", "empty", "junk", ""}[v.rng.Intn(6)]
+		s.Label = []string{"zero", "zero", "", "other"}[v.rng.Intn(4)]
+		if s.Kind == "propose" && v.rng.Intn(3) == 0 {
+			s.QCTarget = []string{"certified-tip", "unknownblk", "genesis"}[v.rng.Intn(3)]
+		}
 	}
 	return s
 }
@@ -1592,6 +1733,95 @@ func c03SendFailTails(agg bool) [][]c03Stim {
 			{Kind: "propose", Sender: "wrong", QCTarget: "tip", QCKind: "genuine", Parent: "qc"},
 			{Kind: "propose", Sender: "leader", QCTarget: "older", QCKind: "genuine", Parent: "qc"}},
 	}
+}
+
+// c03SelfCheck fails the Go test (and with it the check) when the harness has gone inert: in a fresh
+// world of every ruleset / timeout rule a genuine proposal of the leader must be voted for, a local
+// timeout must be signed, and the recording wrappers must have seen both.
+func c03SelfCheck(t *testing.T) {
+	for _, ra := range c03RuleAggs {
+		conf := c03Std(ra.rule, 1)
+		conf.Agg = ra.agg
+		w := c03NewWorld(t, conf)
+		tc := c03Stim{Kind: "tc", K: 3}
+		for _, s := range []c03Stim{c03Honest(0), tc, c03Honest(0), {Kind: "timeout"}} {
+			if p := w.apply(s); p != nil {
+				t.Fatalf("self-check (%s): %v", conf, p)
+			}
+		}
+		w.close()
+		votes, timeouts, rulesSeen := 0, 0, 0
+		for _, inv := range w.invs {
+			rulesSeen += len(inv.rules)
+			for _, raw := range inv.signs {
+				switch w.classify(raw).Kind {
+				case "vote":
+					votes++
+				case "timeout":
+					timeouts++
+				}
+			}
+		}
+		if votes != 2 || timeouts != 1 || rulesSeen < 2 || w.states.View() != 2 || w.lastVoted() != 2 {
+			t.Fatalf("harness self-check failed for %s: %d votes (want 2), %d timeout signatures (want 1), %d vote-rule calls, view %d, lastVoted %d",
+				conf, votes, timeouts, rulesSeen, w.states.View(), w.lastVoted())
+		}
+		// and a certificate built by the adversary must be what it is meant to be
+		b := w.tip()
+		if g := w.makeQC(b, "genuine"); g.Signature() == nil || g.Signature().Participants().Len() != w.quorumNow() {
+			t.Fatalf("harness self-check: genuine certificate has no quorum of signatures")
+		}
+		if x := w.shapeQC(b, "nil", "zero"); x.Signature() != nil || x.View() != 0 || x.BlockHash() != b.Hash() || b.View() == 0 {
+			t.Fatalf("harness self-check: unsigned view-0 certificate for a non-genesis block not built as intended")
+		}
+	}
+}
+
+// c03ShapeSeqs: malformed certificates in prepared states.
+func c03ShapeSeqs(agg bool) [][]c03Stim {
+	tc := c03Stim{Kind: "tc", K: 3}
+	to := c03Stim{Kind: "timeout"}
+	h := c03Honest
+	next := []c03Stim{h(1)}
+	if agg {
+		next = []c03Stim{tc, h(0)}
+	}
+	cat := func(parts ...[]c03Stim) []c03Stim {
+		var r []c03Stim
+		for _, p := range parts {
+			r = append(r, p...)
+		}
+		return r
+	}
+	one := func(xs ...c03Stim) []c03Stim { return xs }
+	type sl struct{ shape, label string }
+	var sls []sl
+	for _, sh := range []string{"nil", "typednil", "empty", "junk"} {
+		for _, lb := range []string{"zero", "", "other"} {
+			sls = append(sls, sl{sh, lb})
+		}
+	}
+	sls = append(sls, sl{"", "zero"}, sl{"", "other"}) // a genuine quorum under a wrong stated view
+	var seqs [][]c03Stim
+	for _, x := range sls {
+		p := func(target string) c03Stim {
+			return c03Stim{Kind: "propose", Sender: "leader", QCTarget: target, QCKind: "genuine", Parent: "qc", Shape: x.shape, Label: x.label}
+		}
+		q := func(target string) c03Stim {
+			return c03Stim{Kind: "qc", QCTarget: target, Shape: x.shape, Label: x.label}
+		}
+		seqs = append(seqs,
+			// a block proposed earlier that never got a quorum is "certified" by the next leader
+			one(h(0), tc, p("tip"), h(0), to),
+			// the same after the view timed out locally, and with a certified block, an unknown one, genesis
+			one(h(0), to, tc, p("tip"), p("certified-tip"), h(0)),
+			cat(one(h(0)), next, one(p("unknownblk"), p("certified-tip"), p("older"), h(0))),
+			one(p("genesis"), h(0), tc, p("genesis"), h(0)),
+			// inside a new-view message; afterwards the replica leads a view itself and proposes from its high QC
+			one(h(0), tc, q("tip"), tc, tc, q("genesis"), tc, h(0)),
+		)
+	}
+	return seqs
 }
 
 func c03Boundary(agg bool) [][]c03Stim {
